@@ -38,8 +38,7 @@ def o_spec(case, out):
     return pyspec.check_case(case, out, Line)
 
 
-DOC_PANICS = {"P:range_end", "P:range_order", "P:range_start_overflow", "P:range_end_overflow",
-              "P:swap_i", "P:swap_j", "P:index"}
+DOC_PANICS = {"P:doc"}       # the parser canonicalises every documented panic (engine.canon_panic)
 INJECTED = {"P:drop", "P:clone", "P:call", "P:next", "P:eq"}
 
 
@@ -94,11 +93,12 @@ def o_documented_panics(case, out):
             size = prev.size
             if t[0] in ("range", "range_mut", "drain"):
                 exp = expected_range_panic(t[1], t[2], size)
+                exp = "P:doc" if exp else None
             elif t[0] == "swap":
                 i, j = int(t[1]), int(t[2])
-                exp = "P:swap_i" if i >= size else ("P:swap_j" if j >= size else None)
+                exp = "P:doc" if (i >= size or j >= size) else None
             elif t[0] in ("index", "index_mut"):
-                exp = "P:index" if int(t[1]) >= size else None
+                exp = "P:doc" if int(t[1]) >= size else None
             faulted = any(x.startswith("!") for x in t)
             got = l.ret if l.ret.startswith("P:") else None
             if not faulted and got != exp:
